@@ -6,7 +6,7 @@ PAT="${1:-}"
 for f in "$HERE"/selftest/mutants/*${PAT}*.patch; do
   [ -e "$f" ] || continue
   b=$(basename "$f" .patch); prop=${b##*.}
-  r=$("$HERE/selftest/try_patch.sh" "$f" "$prop" 2>&1 | grep "^== " | head -1)
+  r=$(KEEP_REPLAYS="${KEEP_CORPUS:+$HERE/corpus/.incoming/$b}" "$HERE/selftest/try_patch.sh" "$f" "$prop" 2>&1 | grep "^== " | head -1)
   echo "$b $r"
 done
 for d in "$HERE"/seeded/*${PAT}*/; do
